@@ -1067,7 +1067,7 @@ pub fn run(mut sc: Scenario, scratch: &str) -> RunLog {
                             if top.at_us <= now { let it = s.queue.pop().unwrap(); s.exec(it.kind); if s.paced { break; } } else { break; }
                         }
                     }
-                    _ = tokio::time::sleep(Duration::from_millis(500)) => {
+                    _ = tokio::time::sleep(Duration::from_millis(if asked_report { 500 } else { 2 })) => {
                         let pid = ids.lock().unwrap().get(tr).cloned().flatten();
                         res.id = pid;
                         if let Some(pid) = pid {
